@@ -316,14 +316,63 @@ def same_segment_rules(repo, chk):
     chk.floor("R-C18-4", 6)
 
 
+# ------------------------------------------------------------------------------------------------ R-C18-5
+def dedup_rules(repo, chk, fn):
+    """duplicates allowed: when valve_segments works on a de-duplicated COPY of the layer, every later read of the layer goes through that copy
+    (a pass that still reads the caller's frame sees a one-valve link as a two-valve link and leaves it unlabelled)."""
+    params = [a.arg for a in fn.args.args]
+    if len(params) < 2:
+        raise ExtractError("valve_segments: expected (G, valve_layer)")
+    layer = params[1]
+    copies = {}          # name -> line of the statement that makes it a de-duplicated copy
+    aliases = {layer}
+    inplace = False
+    for n in walk(fn):
+        if isinstance(n, ast.Assign) and len(n.targets) == 1 and isinstance(n.targets[0], ast.Name):
+            v = n.value
+            if isinstance(v, ast.Name) and v.id in aliases:
+                aliases.add(n.targets[0].id)
+            if isinstance(v, ast.Call) and isinstance(v.func, ast.Attribute) and v.func.attr == "drop_duplicates" and isinstance(v.func.value, ast.Name) and v.func.value.id in aliases | set(copies):
+                if not any(k.arg == "inplace" and getattr(k.value, "value", None) is True for k in v.keywords):
+                    copies[n.targets[0].id] = n.lineno
+        if isinstance(n, ast.Expr) and isinstance(n.value, ast.Call) and isinstance(n.value.func, ast.Attribute) and n.value.func.attr == "drop_duplicates":
+            if any(k.arg == "inplace" and getattr(k.value, "value", None) is True for k in n.value.keywords):
+                inplace = True
+    copies.pop(layer, None) if inplace else None
+    dedup_names = set(copies) - ({layer} if layer in copies and not inplace else set())
+    if layer in copies:
+        # the parameter name itself is rebound to the copy: one name, nothing to confuse
+        chk.ok("R-C18-5", "the valve layer is read through one name after de-duplication", loc(TOPO, fn), "parameter rebound to the de-duplicated frame")
+        return
+    if not copies:
+        chk.expect(inplace, "R-C18-5", "duplicate valve rows are dropped before the labelling passes", loc(TOPO, fn),
+                   "the statement allows duplicated (link, node) rows; the passes count rows per link", found="no drop_duplicates on the layer")
+        return
+    first = min(copies.values())
+    stale = []
+    for n in walk(fn):
+        if isinstance(n, ast.Name) and isinstance(n.ctx, ast.Load) and n.id == layer and n.lineno > first:
+            par = getattr(n, "_parent", None)
+            # reading rows / columns of the caller's frame (subscript, attribute, call argument); `valves = valve_layer` style aliasing before the copy is not a read
+            if isinstance(par, (ast.Subscript, ast.Attribute, ast.Compare, ast.Call)):
+                stale.append(n)
+    chk.expect(not stale, "R-C18-5", "after de-duplication every pass reads the de-duplicated valve layer", loc(TOPO, stale[0]) if stale else loc(TOPO, fn),
+               "a pass that still reads the caller's frame counts a duplicated row twice: a link with one valve listed twice is taken for a link with two valves and keeps label 0",
+               expected="reads through %s" % sorted(copies), found=["line %d: %s" % (x.lineno, norm(getattr(x, "_parent", x))) for x in stale[:4]])
+
+
 def run(repo, chk):
     fn = label_rules(repo, chk)
+    dedup_rules(repo, chk, fn)
     size_rules(repo, chk, fn)
     addressing_rules(repo, chk)
     same_segment_rules(repo, chk)
 
 
 WITNESSES = [
+    dict(name="later-pass-reads-the-callers-frame", file=TOPO, old="    if valve_layer.duplicated().any():\n        valve_layer.drop_duplicates(inplace = True)\n", new="    valves = valve_layer\n    if valves.duplicated().any():\n        valves = valves.drop_duplicates()\n",
+         also=[("        link_valves = valve_layer[valve_layer['link']==link_name]\n        if set(link_valves['node'])", "        link_valves = valves[valves['link']==link_name]\n        if set(link_valves['node'])")], rule="R-C18-5"),
+    dict(name="layer-rebound-to-its-copy-preserving", file=TOPO, old="    if valve_layer.duplicated().any():\n        valve_layer.drop_duplicates(inplace = True)\n", new="    if valve_layer.duplicated().any():\n        valve_layer = valve_layer.drop_duplicates()\n", silent=True),
     dict(name="label-before-increment", file=TOPO, old="        seg_index += 1\n        for node in component:", new="        for node in component:", rule="R-C18-1"),
     dict(name="sizes-from-one-series-twice", file=TOPO, old="seg_node_sizes = node_segments.value_counts().rename('node')", new="seg_node_sizes = link_segments.value_counts().rename('node')", rule="R-C18-2"),
     dict(name="position-through-loc", file=TOPO, old="    for i in valve_layer.index:  # valve numbers are index labels, not positions\n        # identify the node-side and link-side segments\n        node_seg = node_segments[valve_layer.loc[i,'node']]\n        link_seg = link_segments[valve_layer.loc[i,'link']] \n        # if the node and link are in the same segment, set criticality to 0\n        if node_seg == link_seg:\n            VC_val_i = 0 ",
